@@ -91,6 +91,10 @@ def setup():
         r = core.run_mc(m, workers=8, timeout=3000, xmx="8g")
         if not r["ok"]:
             raise core.ToolError(f"{m} fails: {r['violated']}")
+    track_checks.write_cfg("MC_Tracker_d5", 2, 5, False)
+    r = core.run_mc("MC_Tracker", cfg="MC_Tracker_d5", workers=8, timeout=3400, xmx="12g")
+    if not r["ok"]:
+        raise core.ToolError(f"MC_Tracker fails: {r['violated']}")
     core.build_apps()
     print("setup ok")
     return 0
